@@ -91,9 +91,9 @@ for _pid, _why in {
 }.items():
     na(_pid, _why)
 claim('C15',
-      "Every function of the async path type (primitives and composites except the walk_dir stream), of AsyncAltrootFS and of AsyncOverlayFS is extracted from src/async_vfs on this run, read through rule R30 (await erasure: `.await` dropped, `async fn` -> `fn`, port type names mapped to the sync names, Stream -> Iterator, `while let Some(x) = s.next()` -> `for`, `async { .. }.await` -> immediately invoked closure) and "
-      "proved by Verus against the SAME contracts, loop invariants and lemmas that the sync functions are proved against (units U26-U29 are `derive`d from U06-U09, nothing is restated): both sides meet the trait contract TC / path contract PC, frames and serving semantics, and where these contracts are exact (success exactly when the precondition holds, exact effect, error classes) the outcomes, error classes and observable trees coincide. "
+      "Every function of the async path type (primitives and composites), of AsyncAltrootFS, of AsyncOverlayFS and of AsyncMemoryFS (all trait methods and the publishing Drop of its write handle) is extracted from src/async_vfs on this run, read through rule R30 (await erasure: `.await` dropped, `async fn` -> `fn`, port type names mapped to the sync names, Stream -> Iterator, `while let Some(x) = s.next()` -> `for`, `async { .. }.await` -> immediately invoked closure, async lock acquisition -> the shape rule R4 knows) and "
+      "proved by Verus against the SAME contracts, loop invariants and lemmas that the sync functions are proved against (units U23, U26-U29 are `derive`d from U03, U06-U09; amendments are stated in the unit files: the port keeps no timestamps, publishes on drop, stores the path in a String): both sides meet the trait contract TC / TC+ / path contract PC, frames and serving semantics, and where these contracts are exact (success exactly when the precondition holds, exact effect, error classes) the outcomes, error classes and observable trees coincide. The async read handle (poll_read / poll_seek, U21) is proved against the cursor model the sync read handle is proved against. "
       "The hand-written Stream::poll_next of walk_dir (U30) is proved as a state machine over opaque in-flight futures: a poll of a stored future is either Pending (and then nothing has happened) or Ready with the outcome of the call under its proved contract; with the representation invariant wd_inv (what is in flight matches what is stored) the function is proved, for EVERY poll schedule, to keep the next entry across Pending returns (no loss, duplication or reordering) and to obey the step contract of the sync iterator's next on every Ready item - this is the part of 'independent of how often futures return pending' that a contract can state. "
-      "Not within reach and decided by a bounded stand-in only: AsyncMemoryFS, AsyncPhysicalFS, their read/write handles, copy_dir/move_dir (watched by source hash); the differential oracle (replay/src/bin/adiff.rs) runs the sync and async APIs side by side, including a filesystem whose every call and stream item returns Pending k = 0..3 times first and entries that vanish during a walk.",
+      "Not within reach and decided by a bounded stand-in only: AsyncPhysicalFS, the write handle's poll_write/poll_flush/poll_close (delegation to an async_std Cursor), copy_dir/move_dir (watched by source hash); the differential oracle (replay/src/bin/adiff.rs) runs the sync and async APIs side by side, including a filesystem whose every call and stream item returns Pending k = 0..3 times first and entries that vanish during a walk.",
       "Assumed: an await point is transparent (one task, no interleaving between the steps of an operation - rule R30a); the model of a boxed future (prelude/asyncport.rs, rule R30i: polling performs the call atomically at the Ready poll); the sync contracts themselves are proved under C01-C14/C19/C20; known findings of the sync overlay are shared by the port and are not C15 violations. The bounded parts are labelled bounded and never counted as discharged.",
       "DESIGN.md section 5, C15")
